@@ -47,6 +47,19 @@ def gen(tier, rng):
                 for b in (a + f, f + a):
                     out.append(("SECEQ %s %s %s" % (ty, C.tb(a), C.tb(b)), "affix"))
                     out.append(("SECEQ %s %s %s" % (ty, C.tb(b), C.tb(a)), "affix"))
+    # long values with multi-byte characters at every offset around the SHA-256 block size and other powers of two
+    # (a prefix cut at a fixed BYTE offset lands inside a character for some of them): compared with themselves
+    # (so that the hash is taken) and with a neighbour differing only behind the offset
+    for ti, ty in enumerate(TYPES):
+        for fill in ("é", "€", "\U0001F600"):
+            for pad in range(0, 5):
+                for total in (20, 40, 70, 130, 260):
+                    if tier == "quick" and (ti + pad + total) % 3 and total != 70:
+                        continue
+                    a = "a" * pad + fill * (total // len(fill.encode("utf-8")) + 1)
+                    out.append(("SECEQ %s %s %s" % (ty, C.tb(a), C.tb(a)), "long-multibyte"))
+                    out.append(("SECEQ %s %s %s" % (ty, C.tb(a), C.tb(a + "x")), "long-multibyte"))
+                    out.append(("SECEQ %s %s %s" % (ty, C.tb(a + "x"), C.tb(a + "y")), "long-multibyte"))
     n = 500 if tier == "quick" else 50000
     for _ in range(n):
         a = "".join(rng.choice("abé\x00 ") for _ in range(rng.randint(0, 6)))
